@@ -191,7 +191,7 @@ class C18(Check):
             setup = [{"fn": "init_callbacks"} if controlled else {"fn": "C_Initialize", "flags": prog.get("init_flags", K.CKF_OS_LOCKING_OK)}]
             if prog.get("preinit"):
                 # the same process was initialised WITHOUT locking before (provisioning), and finalised: locking must still be switched on now
-                setup = [{"fn": "C_Initialize"}, {"fn": "C_Finalize"}] + setup
+                setup = [{"fn": "C_Initialize", "null_args": True}, {"fn": "C_Finalize"}] + setup
             for k, tok in enumerate(toks):
                 setup.append({"fn": "C_OpenSession", "slot": tok.slot, "flags": RW, "save": "main%d" % k})
                 if prog.get("start_logged_in"):
